@@ -407,6 +407,7 @@ fn main() {
         std::panic::set_hook(Box::new(|info| {
             if util::IN_CATCH.with(|c| c.get()) == 0 { eprintln!("harness bug (panic outside a case): {info}"); }
         }));
+        util::start_watchdog(&args.out, &args.engine);
         match arg.as_str() {
             "dom" => engine::run(&args),
             "view" => view::run(&args),
